@@ -12,7 +12,9 @@ LEAN_MODULES = ["Properties.C15TracksV1"]
 THEOREMS = [NS + t for t in [
     "v1t_C15_no_ub", "v1t_C15_invariant", "v1t_C15_empty", "v1t_C15_reachable_no_ub", "v1t_C15_ceil_exact",
     "v1t_C15_reachable_no_ub_exact_ceil", "v1t_C15_write_any_snapshot", "v1t_C15_slot_any_index",
-    "v1t_C15_stale_handle"]]
+    "v1t_C15_stale_handle_one_step", "v1t_C15_stale_handle_partial", "v1t_C15_stale_handle_counterexample",
+    "v1t_C15_duration_overflow_counterexample", "v1t_C15_sites", "v1t_C15_guarded_step",
+    "v1t_C15_guarded_reachable_no_ub", "v1t_C15_all_calls_no_ub", "v1t_C15_guard_dropped_counterexample"]]
 ASSUMPTIONS = [
     "tracks 1.x: the model (EngineModel/TracksV1, tied by C01/C06 and again here) makes these undefined-behaviour "
     "sources explicit: vector index in the four per-slot accessors and in the waveform resampling loop (oob_index), "
@@ -81,8 +83,12 @@ def adversarial(rng, tier, uid, live, allow_create):
         if allow_create and rng.random() < 0.5:
             return "mktrack tn%d %s" % (uid, G.snap_txt(s))
         return "update %s %s" % (t, G.snap_txt(s))
-    if k < 0.96 or allow_create:
+    if k < 0.93:
         return "get %s %s" % (t, rng.choice(["valid", "id", "copy"]))
+    if k < 0.96 or allow_create:
+        return rng.choice(K.DB_CONST + ["db.q tracks", "db.q track_by_id %d" % rng.choice([0, -1, 1, 2, 3, 999, 2 ** 40]),
+                                        "db.q tracks_by_path " + K.hexs(rng.choice([b"", b"nope", b"x" * 300])),
+                                        "c15.handles - %s" % t, "db.q tracks"])
     v = rng.choice(["ta", "tb", "tx"])
     if v in live and len(live) < 2:
         v = "tx"
@@ -161,7 +167,7 @@ def tie(ctx):
             hid += 1
             scripts.append(gen_script(rng, ctx.tier, s, hid, nadv, "stale" if i % 2 == 0 else "create"))
     res = K.run_pair(scripts)
-    j = K.judge(res, "tracks_v1", "v1", lambda s: PREFIX, stale_of, opkey, loose_ids=True)
+    j = K.judge(res, "tracks_v1", "v1", lambda s: PREFIX, stale_of, opkey, loose_ids=True, defined_only=K.const_query)
     cd = ceil_selftest(rng, 400 if ctx.tier == "thorough" else 120)
     j["divergences"] += cd
     j["ok"] = j["ok"] and not cd
